@@ -160,7 +160,16 @@ def classify(lines, idx, verdict):
             if any(l.startswith("res " + op[1] + " ") for l in lines[opi:idx]): tags.append("crash_after_result_reported")
         elif op is not None:
             site = "%s::%s(%s)" % (cls, cls, op[3])
-            if any(l.startswith("res " + op[1] + " ") for l in lines[lines.index(" ".join(op)):idx] if " ".join(op) in lines): tags.append("crash_after_result_reported")
+            opi = max(i for i in range(idx + 1) if lines[i].split() == op)
+            tags += arg_number_tags(op[4:], tname, tags)
+            tags += overflow_tags([], op[4:], tname, cls)
+            if any(l.startswith("res " + op[1] + " ") for l in lines[opi:idx]): tags.append("crash_after_result_reported")
+        if "crash_after_result_reported" in tags:
+            # the result had been printed through constraints(): the crash is in OK(), minimized_constraints() of a copy,
+            # the conversion to a polyhedron or ascii_dump() of the result
+            site = cls + "::minimized_constraints"
+            rr = rows_of_slot(lines, idx, op[1])
+            if rr is not None: tags += [x for x in overflow_tags([rr], [], tname, cls) if x not in tags]
         else:
             site = cls + "::?"
     elif t[0] == "q":
@@ -267,6 +276,12 @@ def classify(lines, idx, verdict):
             r2x = rows_of_slot(lines, opi, op[3]) if len(op) == 4 else None
             tags += overflow_tags([rr, r2x], op[3:], tname, cls)
             if "T_native_int" in tags and "native_int_negative_coefficient" in tags: tags.append(cls + "_native_int_negative_coefficient")
+        if t[0] == "res":
+            try:
+                resrows = parse_cs_rows(t[4:], int(t[2]))[0]
+                tags += [x for x in overflow_tags([resrows], [], tname, cls) if x not in tags]
+            except Exception:
+                pass
         if t[0] == "res" and t[3] != "cons":
             tags.append("reading_" + t[3])
     elif t[0] in ("arg", "obs"):
